@@ -375,6 +375,17 @@ func TestVerif(t *testing.T) {
 		}
 		tape := simrt.NewTape(seed)
 		r := execute(t, prop, tier, tape, 1)
+		if hl := os.Getenv("VERIF_HASHLOG"); hl != "" {
+			// determinism self-test: one line per run with the hash of its complete event log
+			if f, err := os.OpenFile(hl, os.O_CREATE|os.O_WRONLY|os.O_APPEND, 0o644); err == nil {
+				sig := ""
+				if r.Viol != nil {
+					sig = r.Viol.Sig
+				}
+				fmt.Fprintf(f, "%d %d %s %d %d %s\n", idx, seed, r.Log.Hash(), r.Log.Len(), tape.Pos(), sig)
+				f.Close()
+			}
+		}
 		agg.Runs++
 		agg.Steps += r.Steps
 		agg.SimTimeNs += int64(r.SimTime)
